@@ -160,7 +160,7 @@ class PyModel:
                 arr = concat_arrays(arr, n, src)
                 n = n + m
         r = ex.new_list(L.simp(n), arr)
-        ex.event('write', 'list', 'display', r, z3.IntVal(0), ex.heap.llen(r), ())
+        ex.event('write', 'list', 'display<%s>' % ex.last_snapshot_kind, r, z3.IntVal(0), ex.heap.llen(r), ())
         return L.ListV(r)
 
     def iter_snapshot(self, ex, v):
@@ -168,21 +168,29 @@ class PyModel:
         if ex.branch(z3.Or(L.is_List(v), L.is_Tuple(v)), 'snap-seq'):
             r = self.seq_ref_b(ex, v)
             n = ex.heap.llen(r)
-            ex.assume(n >= 0)
+            from .families import CAP
+            # TSI-6 is a heap invariant of every container that existed before this activation;
+            # containers allocated by it are checked where they escape
+            ex.assume(z3.And(n >= 0, z3.Or(ex.is_fresh(r), n <= CAP)))
             ex.event('iter_read', r)
+            ex.last_snapshot_kind = 'seq'
             return n, ex.heap.lelts(r)
         if ex.branch(L.is_Str(v), 'snap-str'):
             n = L.slen(Val.s(v))
             arr = z3.Const(ex.fresh_name('chars'), z3.ArraySort(I, Val))
             ex.note_array_elems(arr, 'str1')
+            ex.last_snapshot_kind = 'str'
             return n, arr
         if ex.branch(L.is_Dict(v), 'snap-dict'):
             r = L.simp(Val.dref(v))
             n = ex.heap.dlen(r)
-            ex.assume(n >= 0)
+            from .families import CAP
+            ex.assume(z3.And(n >= 0, z3.Or(ex.is_fresh(r), n <= CAP)))
+            ex.last_snapshot_kind = 'dict'
             return n, ex.heap.arr('DKEY')[r]
         if ex.branch(L.is_Opaque(v), 'snap-opaque'):
             d = ex.iter_descs.get(L.simp(v).get_id())
+            ex.last_snapshot_kind = 'iterator'
             if d is not None and hasattr(d, 'snap'):
                 return d.snap(ex)
             n = ex.fresh_int('itlen')
@@ -290,6 +298,7 @@ class PyModel:
             if not ex.branch(self.hashable(key), 'hashable'):
                 ex.raise_('TypeError', 'unhashable')
             if ex.branch(ex.heap.dhas(r, key), 'dict-has'):
+                ex.assume(ex.heap.dlen(r) >= 1)
                 x = ex.known(ex.heap.dval(r, key))
                 ex.assume_elem(x)
                 ex.event('elem_read', r, key, x)
@@ -408,6 +417,7 @@ class PyModel:
                 ex.raise_('TypeError', 'unhashable')
             h = ex.heap
             if ex.branch(h.dhas(r, key), 'dict-has'):
+                ex.assume(ex.heap.dlen(r) >= 1)
                 ex.dict_write('delete', r, h.dlen(r) - 1, z3.Store(h.arr('DHAS')[r], key, z3.BoolVal(False)),
                               h.arr('DVAL')[r], None)
                 return
